@@ -26,7 +26,16 @@ type E3Workload struct {
 	Seed     uint64 `json:"seed"`
 	FailKind int    `json:"fail_kind"`
 	PreState string `json:"pre_state"` // "empty", "dir-exists", "crashed-save-leftover"
+	Double     bool `json:"double"` // two failing Checks of the same test in one process
 	TmpOtherFS bool `json:"tmpdir_other_fs"` // the child's TMPDIR lives on another file system (tmpfs)
+}
+
+// normal: combinations that are not supported together are reduced to the simpler one.
+func (wl E3Workload) normal() E3Workload {
+	if wl.Double {
+		wl.PreState = "empty"
+	}
+	return wl
 }
 
 type E3Report struct {
@@ -305,6 +314,30 @@ func (b *build) e3RunWorkload(wl E3Workload, root string, only int) *e3Result {
 		return res
 	}
 	refFiles := listFailFiles(base)
+	refSet := map[string]bool{}
+	if wl.Double {
+		// two saves in one process: a complete file is one that equals the first save (taken from a pristine single-save
+		// run) or whatever the uninterrupted double run leaves behind
+		single := wl
+		single.Double = false
+		pristine := filepath.Join(root, "pristine1")
+		_ = os.MkdirAll(pristine, 0o755)
+		if code, out := b.e3Child(pristine, "save", single, filepath.Join(root, "pristine1.report"), nil, ""); code != 0 {
+			res.Harness = fmt.Sprintf("pristine single-save child exit %d: %s", code, trimTo(out, 300))
+			return res
+		}
+		for _, f := range listFailFiles(pristine) {
+			fb, _ := os.ReadFile(f)
+			refSet[normFailFile(fb)] = true
+		}
+		for _, f := range refFiles {
+			fb, _ := os.ReadFile(f)
+			refSet[normFailFile(fb)] = true
+		}
+		if len(refFiles) > 1 {
+			refFiles = refFiles[len(refFiles)-1:]
+		}
+	}
 	if leftover != "" && len(refFiles) > 1 {
 		// the killed earlier save left something behind under a fail-file name
 		res.Viols = append(res.Viols, e3Violation{Rule: "C16.J1", Sig: "partial-file-under-fail-name", Workload: wl, Point: 0,
@@ -328,7 +361,8 @@ func (b *build) e3RunWorkload(wl E3Workload, root string, only int) *e3Result {
 		}
 		pf := listFailFiles(pristine)
 		if len(pf) != 1 {
-			res.Harness = fmt.Sprintf("pristine save produced %d fail files", len(pf))
+			res.Viols = append(res.Viols, e3Violation{Rule: "C16.J1", Sig: "uninterrupted-save-file-count", Workload: wl, Point: 0,
+				Msg: fmt.Sprintf("an uninterrupted save in a pristine directory left %d *.fail files: %v", len(pf), listAllFiles(pristine))})
 			return res
 		}
 		pb, _ := os.ReadFile(pf[0])
@@ -354,7 +388,7 @@ func (b *build) e3RunWorkload(wl E3Workload, root string, only int) *e3Result {
 		res.Harness = fmt.Sprintf("reference rerun failed: %d %v %s", code, err, trimTo(out, 400))
 		return res
 	}
-	if rr.FailFilePhase == 0 || !sameBuf(rr.FirstBuf, rep.FinalBuf) {
+	if rr.FailFilePhase == 0 || (!wl.Double && !sameBuf(rr.FirstBuf, rep.FinalBuf)) {
 		res.Viols = append(res.Viols, e3Violation{Rule: "C16.J2", Sig: "uninterrupted-save-not-replayed", Msg: fmt.Sprintf("a later run did not replay the uninterrupted save (fail-file invocations=%d, logs=%v)", rr.FailFilePhase, rr.IgnoredLogs), Workload: wl, Point: len(calls)})
 		return res
 	}
@@ -405,7 +439,7 @@ func (b *build) e3RunWorkload(wl E3Workload, root string, only int) *e3Result {
 			state := "no-fail-file"
 			for _, f := range ff {
 				fb, _ := os.ReadFile(f)
-				if normFailFile(fb) != ref {
+				if normFailFile(fb) != ref && !refSet[normFailFile(fb)] {
 					rel, _ := filepath.Rel(dir, f)
 					res.Viols = append(res.Viols, e3Violation{Rule: "C16.J1", Sig: "partial-file-under-fail-name", Workload: wl, Point: k, Call: c,
 						Msg: fmt.Sprintf("killed before call #%d (%s[%d] %s): %s has %d bytes, the uninterrupted save has %d; directory: %v", k, c.Name, c.Ordinal, trimTo(c.Text, 80), rel, len(fb), len(refBytes), listAllFiles(dir))})
@@ -438,7 +472,7 @@ func (b *build) e3RunWorkload(wl E3Workload, root string, only int) *e3Result {
 					res.Viols = append(res.Viols, e3Violation{Rule: "C16.J2", Sig: "complete-file-not-replayed", Workload: wl, Point: k, Call: c, Msg: fmt.Sprintf("a complete fail file exists after crash point #%d but the next run did not replay it", k)})
 				}
 			default:
-				if !sameBuf(r2.FirstBuf, rep.FinalBuf) || r2.AfterTests != 0 {
+				if (!wl.Double && !sameBuf(r2.FirstBuf, rep.FinalBuf)) || r2.AfterTests != 0 {
 					res.Viols = append(res.Viols, e3Violation{Rule: "C16.J2", Sig: "other-case-replayed", Workload: wl, Point: k, Call: c,
 						Msg: fmt.Sprintf("killed before call #%d (%s[%d]): the next run replayed %d words (after %d tests), the uninterrupted save holds %d words; directory: %v", k, c.Name, c.Ordinal, len(r2.FirstBuf), r2.AfterTests, len(rep.FinalBuf), all)})
 				}
@@ -468,7 +502,7 @@ func e3GenWorkload(seed uint64, idx int, tier string) E3Workload {
 	}
 	kinds := []int{1, 6, 4, 10} // Fatalf, panic(string), Errorf, nil-map-write
 	return E3Workload{Name: names[next(len(names))], Lines: lines, LineLen: 1 + next(200), Words: []int{0, 1, 8, 64}[next(4)], Seed: 1 + uint64(next(1<<30)),
-		FailKind: kinds[next(len(kinds))], PreState: []string{"empty", "dir-exists", "crashed-save-leftover"}[next(3)], TmpOtherFS: next(4) == 0}
+		FailKind: kinds[next(len(kinds))], PreState: []string{"empty", "dir-exists", "crashed-save-leftover"}[next(3)], TmpOtherFS: next(4) == 0, Double: next(5) == 0}.normal()
 }
 
 type e3Replay struct {
@@ -582,14 +616,18 @@ func runE3(prop string, cfg *propCfg, tier string, seed uint64) int {
 		}
 		seen[key] = true
 		// confirm in a fresh build-independent replay of that single crash point
-		root := filepath.Join(b.root, "confirm-"+sanitize(key))
-		_ = os.MkdirAll(root, 0o755)
-		r := b.e3RunWorkload(v.Workload, root, v.Point)
-		os.RemoveAll(root)
 		confirmed := false
-		for _, v2 := range r.Viols {
-			if v2.Rule == v.Rule && v2.Sig == v.Sig {
-				confirmed = true
+		// the only real-time dependence of E3 is the second-granular timestamp in fail-file names (two saves of a
+		// "double" workload collide only within one wall-clock second): allow the confirmation a few attempts
+		for attempt := 0; attempt < 4 && !confirmed; attempt++ {
+			root := filepath.Join(b.root, fmt.Sprintf("confirm-%s-%d", sanitize(key), attempt))
+			_ = os.MkdirAll(root, 0o755)
+			r := b.e3RunWorkload(v.Workload, root, v.Point)
+			os.RemoveAll(root)
+			for _, v2 := range r.Viols {
+				if v2.Rule == v.Rule && v2.Sig == v.Sig {
+					confirmed = true
+				}
 			}
 		}
 		if !confirmed {
